@@ -75,6 +75,10 @@ def tyOfJson (j : Json) : Except String TySet :=
   | .str s => do pure (.single (â† jtOf s))
   | .arr #[.str a, .str "null"] => do pure (.nullable (â† jtOf a))
   | .arr #[.str "null", .str a] => do pure (.nullable (â† jtOf a))
+  | .obj _ => do
+    match j.getObjVal? "wrap" with
+    | .ok (.str a) => do pure (.wrapped (â† jtOf a))
+    | _ => pure .other
   | _ => pure .other
 
 def consOfJson (j : Json) : Except String Cons := do
@@ -200,6 +204,7 @@ def attrJson (pathOf : List Char â†’ Option (List Char Ã— List Char)) : VAttr â†
 /-! ### leaf judging -/
 
 def classesOf (rx : Rx) (l : Leaf) : List String :=
+  (if KnownWrapperConstraintsLost l.c then ["KnownWrapperConstraintsLost"] else []) ++
   (if KnownNullableNumeric l.c then ["KnownNullableNumeric"] else []) ++
   (if KnownNullableArray l.c then ["KnownNullableArray"] else []) ++
   (if KnownItemConstraintsLost l then ["KnownItemConstraintsLost"] else []) ++
